@@ -616,21 +616,22 @@ func (server *Server) registerCoreExecutors() {
 		members := []*ZSetMember{}
 		member, err := args.NextString()
 		if err != nil {
-			err = newMissingArgumentError(cmd, "member", err)
+			return nil, newMissingArgumentError(cmd, "member", err)
 		}
-		for err == nil {
+		for {
 			members = append(members, &ZSetMember{Score: score, Member: member})
 			score, err = nextScoreArgument(cmd, "score", args)
 			if err != nil {
-				break
+				if errors.Is(err, proto.ErrEOM) {
+					break
+				}
+				return nil, err
 			}
+			// A score must be followed by its member.
 			member, err = nextStringArgument(cmd, "member", args)
 			if err != nil {
-				break
+				return nil, err
 			}
-		}
-		if !errors.Is(err, proto.ErrEOM) {
-			return nil, err
 		}
 
 		return server.userCommandHandler.ZAdd(conn, key, members, opt)
